@@ -68,7 +68,7 @@ type Ctx struct {
 
 const maxDistinctPerKey = 400000
 const maxSamples = 12
-const maxViolationsKept = 200
+const maxViolationsKept = 600
 
 func NewCtx(prop, tier string, seed int64, shard, nshards int, workdir string) *Ctx {
 	return &Ctx{Prop: prop, Tier: tier, Seed: seed, Shard: shard, NShards: nshards, WorkDir: workdir,
@@ -272,7 +272,9 @@ func (c *Ctx) Violate(v Violation) {
 	}
 	v.Shard = c.Shard
 	c.counts["violations_raw"]++
-	if len(c.viols) < maxViolationsKept {
+	c.counts["violations_by_key."+v.Key]++
+	// keep a few witnesses per key (and a bounded number of keys) so that frequent findings do not hide rare ones
+	if c.counts["violations_by_key."+v.Key] <= 3 && len(c.viols) < maxViolationsKept {
 		c.viols = append(c.viols, v)
 	}
 	c.mu.Unlock()
